@@ -85,6 +85,12 @@ CHECKS["C07"] = dict(
     text="TLC enumerates every segment sequence up to 2 (thorough 3) segments over 7 segment classes for each of manifest.root, directory rel_path, file rel_path / FileBegin and item.id, in both root-directory modes with resume on and off, and checks that the guard rejects the value or the cleaned target stays below the output directory (the pinned commit's guards are refuted). Every case is then transmitted by a scripted sender to the real RecvManifestMultiStream; nothing around the output directory may be created, modified or deleted.",
     note="trusted: TLC as enumerator and oracle of the guard decision; the snapshot of the jail; Unix semantics")
 
+CHECKS["C08"] = dict(
+    category="model_checking", design_ref="5.4",
+    technique="TLA+ specs Auth.tla (symbolic two-message HMAC handshake bound to the TLS session, Dolev-Yao attacker with rogue dialer / rogue listener / relay positions) and AuthExtras.tla model-checked exhaustively with TLC; every terminal behaviour is an attack script replayed against the real authenticateTransport / acceptExtraConns / dialExtraConns over real loopback QUIC, with the alteration classes refined to every bit flip and truncation length",
+    text="TLC explores every attacker strategy (forge under known or guessed codes with its own sessions' keying material, replay of the current and an older session, reflection, role swap, alteration of version / role / nonce / mac, truncation, silence) in four topologies for every pair of codes and every set of codes the attacker knows, and checks that an honest end accepts only a peer that holds its code on its own TLS session, that two honest ends accept each other, that an altered message is rejected and that a connection is used only after a successful handshake (three switches are refuted as controls). Each behaviour is executed over real QUIC/TLS sessions with the real handshake code at the honest ends; the real extra-connection loops are run against scripted peers.",
+    note="trusted: the symbolic treatment of HMAC and the TLS exporter; quic-go; the harness attacker's independent implementation of the proof formula")
+
 CHECKS["C13"] = dict(
     category="exploration", design_ref="5.8",
     technique="TLA+ spec Scan.tla (universe forest, ordinal-prefix rule and walk transcribed as set comprehensions) enumerated exhaustively with TLC; the real ScanPaths and buildPathResolver run on every enumerated path list over the materialised forest and are compared with the spec's expected manifest and an independent oracle",
